@@ -1774,7 +1774,7 @@ class UTPM(Ring, RawAlgorithmsMixIn):
         """ extracts the Jacobian vector product from a UTPM instance
         if x.ndim == 1 it is equivalent to the gradient
         """
-        return x.data[1,...].transpose([i for i in range(1,x.data[1,...].ndim)] + [0])[:,0]
+        return x.data[1,...].transpose([i for i in range(1,x.data[1,...].ndim)] + [0])[...,0]
 
 
     @classmethod
